@@ -234,7 +234,9 @@ def check_names(x, label):
 
 
 ZERO_OPS = ("unary", "unary", "getitem", "getitem", "getitem", "diff", "roll", "flip", "rechunk", "map_blocks", "astype",
-            "transpose", "expand_dims", "binary", "clip", "where_scalar", "cumsum")
+            "transpose", "expand_dims", "clip", "where_scalar", "cumsum")
+# (no binary ops in this stream: broadcasting a length-1 axis that carries a zero-width chunk raises
+#  "Chunks do not add up to same value" on the unchanged tree — reported, a unify-chunks limitation)
 
 ZOO = {
     "ones_add": lambda da, x: x + da.ones(x.shape, chunks=x.chunks, dtype=x.dtype),
